@@ -1,11 +1,13 @@
 #!/bin/sh
-# Run the pinned baseline suite on /repo and report whether every stable_pass test passes.
-cd /repo && /venv/bin/python -m pytest -q -p no:cacheprovider --timeout=900 --continue-on-collection-errors --junitxml=/tmp/verif_baseline.xml >/tmp/verif_baseline.log 2>&1
-/venv/bin/python - <<'PY'
-import json, xml.etree.ElementTree as ET
+# Run the pinned baseline suite on /repo (or $VERIF_REPO) and report whether every stable_pass test passes.
+R="${VERIF_REPO:-/repo}"
+X="/tmp/verif_baseline.$$"
+cd "$R" && PYTHONPATH="$R" /venv/bin/python -m pytest -q -p no:cacheprovider --timeout=900 --continue-on-collection-errors --junitxml=$X.xml >$X.log 2>&1
+/venv/bin/python - $X.xml <<'PY'
+import json, sys, xml.etree.ElementTree as ET
 base=json.load(open('/root/.vp/BASELINE.json'))
 want=set(base['stable_pass'])
-t=ET.parse('/tmp/verif_baseline.xml')
+t=ET.parse(sys.argv[1])
 ok=set()
 for tc in t.iter('testcase'):
     name=tc.get('classname')+'::'+tc.get('name')
@@ -15,3 +17,6 @@ print("baseline: %d/%d stable tests pass" % (len(want&ok), len(want)))
 for m in missing[:20]: print("  FAIL", m)
 raise SystemExit(1 if missing else 0)
 PY
+rc=$?
+rm -f $X.xml $X.log
+exit $rc
